@@ -21,7 +21,7 @@ CLAIMED = {
  "C09": C("Complete single-message table (every hop limit 0..254 x RS/RA x advertiser/monitor) followed by seeded runs of 1..12 consecutive invalid messages (beyond the 5-try receive budget) mixed with valid ones; per invalid message the effects of the listener goroutine up to its next read are inspected (no RA, no consistency check, no hook, no metric other than the invalid counter), the invalid counter is reconciled by type, and liveness is judged afterwards: task still running, no re-dial, every delivered packet read, following valid solicitations answered; no host is ever sent more unicast RAs than it had sent valid solicitations when an invalid message preceded the surplus one; one population aims a recoverable receive error at the read right after a run of invalid messages (re-dial, then service continues).", "6 (C09)"),
  "C10": C("Part A (package system): the real Dialer.Dial/init loop driven through complete enumerations of dial/task outcome sequences to a stated depth plus cancellation points and seeded long sequences, against the documented policy (classification, 50 attempts, 250 ms steps to 3 s, prompt clean cancel). Part B (package corerad): one fault of every class injected at a seeded instant into a running advertiser/monitor with work pending, optionally followed by failing re-dials; together / classify / backoff / timeouts / halfalive rules on the seam history, and the task must serve solicitations again afterwards.", "6 (C10)", cat="fault_enumeration"),
  "C17": C("Whole daemon wired as in main() (shared plugin objects between advertisers, metrics collector and HTTP handler; real prometheus registry and promhttp): seeded requests for /metrics, /_/api/interfaces, /, /debug/pprof/ and unknown paths at lifecycle points (interface never initialised, re-initialising, advertising), debug.prometheus/pprof on/off, failing sysctl/rtnetlink reads, and a scrape parked inside a sysctl read while solicitations keep arriving; crash / block / routing rules on every request and a mirror rule comparing samples and the JSON rendering (every option kind present, prefix and route lifetimes) with ramodel fed with the values that request read (a gauge produced without its read is held against the simulated system); four in ten requests travel over a simulated connection through the real http.Server of the debug task, one population stops the daemon while such a request is stuck in a system call.", "6 (C17)"),
- "C18": C("Seeded message sequences on a monitoring interface (RAs with arbitrary headers and option lists incl. zero/infinite lifetimes, repeated prefixes and unknown options; RS/NS/NA; several senders; duplicates; receipt instants around whole seconds; both metrics backends; re-initialisation, slow receives, isolated receive timeouts); the metric updates the monitor makes while handling each message are compared as a multiset with a model computed from the decoded message and the fake receipt time. An auxiliary run of three monitors on real threads under -race follows (outside the technique: state shared between monitors without synchronisation has no effect in a one-goroutine-at-a-time simulation; a reported race fails, silence proves nothing).", "6 (C18), 14.5"),
+ "C18": C("Seeded message sequences on a monitoring interface (RAs with arbitrary headers and option lists incl. zero/infinite lifetimes, repeated prefixes and unknown options; RS/NS/NA; several senders; duplicates; receipt instants around whole seconds; both metrics backends; re-initialisation, slow receives, isolated receive timeouts); the metric updates the monitor makes while handling each message are compared as a multiset with a model computed from the decoded message and the fake receipt time. An auxiliary run of three monitors on real threads under -race follows (outside the technique: state shared between monitors without synchronisation has no effect in a one-goroutine-at-a-time simulation; a reported race fails, silence proves nothing). Receive faults include runs of interrupted reads; in some plans the monitor's clock moves on every reading (one message, one receipt time).", "6 (C18), 14.5"),
  "C11": C("Part A: the real Dialer.Dial, dial(), dialNDP(), lookupInterface(), checkInterface() and setAutoconf()/restore against a simulated kernel (their calls into package net and ndp.Listen are substituted in a build-time copy of internal/system; nothing in /repo changes) with a persistent sysctl; enumerated outcome sequences x the place inside dial() where a failure arises x initial value x every (get,set,restore) fault combination on one generation, then seeded longer sequences with faults on several generations, external sysctl changes between connections, failing group-leave/close steps when a connection is given up, and cancellation anywhere; exactly-once cleanup of every socket the kernel hands out, restore to the value found when that connection was opened, tolerated vs reported errors. Part B: the same rules on the whole daemon (flaps, interfaces going away, failing dials, sysctl failures, external changes).", "6 (C11), 14.5", cat="fault_enumeration"),
  "C12": C("Peer routers on the simulated link, the multi-party half of CoreRAD: a second real CoreRAD instance with the same configuration (twins must stay silent about each other), our own RA echoed from another address, peers drawn from a small value domain independently of our configuration (absent/equal/different per field and option kind, both directions), and random larger RAs; every received RA crossed a real encode/decode. Counter increments, hook calls and log lines made while handling each peer RA are compared with an executable RFC 4861 6.2.7 model applied to (our RA at receipt according to ramodel, theirs as decoded).", "6 (C12), 5.3"),
  "C13": C("Address tables are environment nondeterminism: enumerated subsets (size <=2 quick / <=4 thorough) x all permutations of a 17-address pool, then seeded larger tables that change, are permuted, duplicated, emptied or fail while the daemon runs; each transmitted RA's prefix options are compared with the model applied to the listing that build was given.", "6 (C13-C15)"),
